@@ -215,9 +215,11 @@ func execQualified(ops []op, res *engine.Result) {
 					sep = "::"
 				}
 				for _, kind := range []byte{'v', 'f'} {
-					names, probes := cfg.vars, []string{"boundp", "symval"}
+					// read-in-body / call-in-body: the qualified name written inside a function body (a body is compiled
+					// when the function is made, a top level form when it is evaluated: two lookups in slip)
+					names, probes := cfg.vars, []string{"boundp", "symval", "read-in-body"}
 					if kind == 'f' {
-						names, probes = cfg.funcs, []string{"fboundp", "funcall", "function"}
+						names, probes = cfg.funcs, []string{"fboundp", "funcall", "function", "call-in-body"}
 					}
 					for _, n := range names {
 						sl := slot{form: form, c: ci, q: qi, kind: kind, name: n}
@@ -239,6 +241,10 @@ func execQualified(ops []op, res *engine.Result) {
 								src = "(funcall '" + qn + " 0)"
 							case "function":
 								src = "(funcall #'" + qn + " 0)"
+							case "call-in-body":
+								src = "(funcall (lambda (z) (" + qn + " z)) 0)"
+							case "read-in-body":
+								src = "(funcall (lambda (z) " + qn + ") 0)"
 							}
 							obj, e := lisp.EvalIn(in.scope, src)
 							ob := in.classify(obj, e, sl)
